@@ -83,6 +83,11 @@ def instr_font():
     f = fb.font
     for tag in ("fpgm", "prep"):
         t = newTable(tag); t.program = Program(); t.program.fromAssembly(["NPUSHB[ ] 0 255 17", "PUSHW[ ] -32768", "PUSHW[ ] 32767 -1 256", "SVTCA[0]"]); f[tag] = t
+    # legal but unusual bytecode: NPUSHB / NPUSHW with a count of zero, in the middle and at the end of a program
+    pz = Program(); pz.fromBytecode(b"\x40\x00\xb0\x05\x21\x41\x00\xb8\x01\x00\x21\x40\x00")
+    f["fpgm"].program = pz
+    pg = Program(); pg.fromBytecode(b"\xb0\x07\x41\x00\x21\x40\x00\x4e")
+    f["glyf"]["a"].program = pg
     b = io.BytesIO(); f.save(b); return b.getvalue()
 
 def sweeps(tier, rng):
